@@ -120,8 +120,12 @@ def expected(points):
 
 
 def has_bytes(points):
-    return any(isinstance(it, (tuple, list)) and len(it) > 0 and isinstance(it[0], bytes) for it in points) or any(
-        isinstance(it, (tuple, list)) and len(it) == 2 and isinstance(it[1], (tuple, list)) and any(isinstance(x, bytes) for x in it[1]) for it in points)
+    """a bytes object anywhere in the pickled batch (the BINBYTES opcodes are emitted wherever it sits)"""
+    if isinstance(points, bytes):
+        return True
+    if isinstance(points, (tuple, list)):
+        return any(has_bytes(x) for x in points)
+    return False
 
 
 def frame(body):
